@@ -254,8 +254,24 @@ func (k *KWorld) fsop(s KStep, observe bool) error {
 		return err
 	case "chmod":
 		id := lident(p)
-		if !id.ok || id.dir {
-			return syscall.EINVAL // directories: not part of the table
+		if !id.ok {
+			return syscall.ENOENT
+		}
+		if id.dir {
+			// a directory the user watches reports its own attribute change;
+			// one that is only an entry of a watched directory does not (the
+			// internal watch on it asks for delete and rename only)
+			name := ""
+			for _, u := range k.user {
+				if u.isDir && u.id.dev == id.dev && u.id.ino == id.ino {
+					name = u.spelling
+				}
+			}
+			err := kChmod(p, 0o700)
+			if err == nil && observe && name != "" {
+				k.exp("CHMOD", name)
+			}
+			return err
 		}
 		name := k.nameOf(p)
 		err := kChmod(p, 0o600)
@@ -1067,6 +1083,15 @@ func GenK(t *rapid.T, prop string) *KCase {
 			s = KStep{K: "write", P: engine.P(existing("wr", isFile))}
 		case r < 36:
 			s = KStep{K: "chmod", P: engine.P(existing("ch", isFile))}
+			if rapid.IntRange(0, 3).Draw(t, "chdir") == 0 {
+				// attribute change of a watched directory itself (in a burst it
+				// merges with the directory's write notification)
+				ds := []string{"d0", "d1"}
+				if nested != "" {
+					ds = append(ds, nested)
+				}
+				s.P = engine.P(rapid.SampledFrom(ds).Draw(t, "chd"))
+			}
 		case r < 40:
 			s = KStep{K: "trunc", P: engine.P(existing("tr", isFile)), N: 0}
 		case r < 54:
@@ -1074,6 +1099,22 @@ func GenK(t *rapid.T, prop string) *KCase {
 			s = KStep{K: "unlink", P: engine.P(p)}
 			if kind[p] == 'f' {
 				delete(kind, p)
+				if rapid.IntRange(0, 4).Draw(t, "replace") == 0 {
+					// the name comes back at once, as a file or as a directory
+					steps = append(steps, s)
+					if inBurst > 0 {
+						inBurst++
+					} else {
+						steps = append(steps, KStep{K: "sync"})
+					}
+					if rapid.Bool().Draw(t, "replacedir") {
+						s = KStep{K: "mkdir", P: engine.P(p)}
+						kind[p] = 'd'
+					} else {
+						s = KStep{K: "create", P: engine.P(p)}
+						kind[p] = 'f'
+					}
+				}
 			}
 		case r < 62:
 			p := fresh("md")
